@@ -429,6 +429,40 @@ fn origin_responses(a: &mut Acc, r: &mut Rng, n: u64) {
         b"HTTP/1.1 200 OK\r\nContent-Length: 18446744073709551615\r\n\r\nx".to_vec(),
         b"HTTP/1.1 200 OK\r\nTransfer-Encoding: chunked\r\n\r\nffffffffffffffff\r\nx".to_vec(),
     ];
+    // structured hostile responses: every odd spelling of the framing fields, for every client version, whole and byte-at-a-time
+    let mut structured: Vec<Vec<u8>> = vec![];
+    for size in ["", "0", "5", "+5", "-1", "0x5", " 5", "5 ", "5;ext", "5;", ";", "g", "ffffffffffffffff", "fffffffffffffffff", "10000000000000000", "7fffffffffffffff", "8000000000000000", "00000000000000005", "\u{e9}"] {
+        structured.push(format!("HTTP/1.1 200 OK\r\nTransfer-Encoding: chunked\r\n\r\n{}\r\nhello\r\n0\r\n\r\n", size).into_bytes());
+    }
+    for cl in ["", "+5", "-5", "5, 5", "5,6", "18446744073709551616", "99999999999999999999999", "0x5", "5 ", " 5", "five", "\u{e9}"] {
+        structured.push(format!("HTTP/1.1 200 OK\r\nContent-Length: {}\r\n\r\nhello", cl).into_bytes());
+    }
+    for line in ["NoColonHere", ": empty-name", "X-\u{e9}: v", "X: \u{e9}\u{2713}", "X:\tv", " X: leading-space", "X : space-before-colon", "Transfer-Encoding: CHUNKED", "transfer-encoding: gzip, chunked", "Content-Length: 5\r\nContent-Length: 6"] {
+        structured.push(format!("HTTP/1.1 200 OK\r\n{}\r\nContent-Length: 5\r\n\r\nhello", line).into_bytes());
+    }
+    for status in ["HTTP/1.1 20 OK", "HTTP/1.1 2000 OK", "HTTP/1.1 OK", "HTTP/1.1", "HTTP/1.1 200", "HTTP/9.9 200 OK", "HTTP/1.1 099 Low", "HTTP/1.1 600 High", "ICY 200 OK", "HTTP/1.1  200  OK"] {
+        structured.push(format!("{}\r\nContent-Length: 5\r\n\r\nhello", status).into_bytes());
+    }
+    structured.push({ let mut v = b"HTTP/1.1 200 OK\r\n".to_vec(); for i in 0..200 { v.extend_from_slice(format!("X-{}: {}\r\n", i, i).as_bytes()); } v.extend_from_slice(b"Content-Length: 5\r\n\r\nhello"); v });
+    structured.push({ let mut v = b"HTTP/1.1 200 OK\r\nX-Long: ".to_vec(); v.extend(vec![b'a'; 70_000]); v.extend_from_slice(b"\r\nContent-Length: 5\r\n\r\nhello"); v });
+    for (k, m) in structured.iter().enumerate() {
+        for version_seed in 0..6u64 {
+            for bytewise in [false, true] {
+                let mut case = gen_case(version_seed * 7919 + 13, k as u64);
+                case.cuts = if bytewise && m.len() < 600 { (1..m.len()).collect() } else { vec![] };
+                let m2 = m.clone();
+                a.case("origin response translator (structured hostile framing)", m, || {
+                    ORIGIN_OVERRIDE.with(|o| *o.borrow_mut() = Some(m2));
+                    let out = rt.block_on(run_case(&case));
+                    ORIGIN_OVERRIDE.with(|o| *o.borrow_mut() = None);
+                    if out.stalled { panic!("exchange with a malformed origin response never terminated"); }
+                    if let Some(l) = &out.client_sink { if l.lock().unwrap().spin_detected { panic!("translator spins on a malformed origin response"); } }
+                });
+                ORIGIN_OVERRIDE.with(|o| *o.borrow_mut() = None);
+                a.local.distinct_by_construction += 1;
+            }
+        }
+    }
     for k in 0..n {
         let mut m = r.pick(&valid).clone();
         for _ in 0..r.below(4) {
